@@ -2138,6 +2138,16 @@ class TLSConnection(TLSRecordLayer):
                             AlertDescription.handshake_failure,
                             "Client certificate is of wrong type"):
                         yield result
+                # in TLS 1.2 the CertificateVerify names its algorithm: we
+                # need one usable with our key enabled in the settings
+                if privateKey and self.version == (3, 3) and \
+                        not self._sigHashesToList(settings, privateKey,
+                                                  clientCertChain):
+                    for result in self._sendError(
+                            AlertDescription.handshake_failure,
+                            "No signature algorithm usable with our "
+                            "certificate is enabled"):
+                        yield result
 
             clientCertificate = self._create_cert_msg(
                 "client", certificateRequest,
